@@ -227,22 +227,26 @@ def vacuity(models):
 def generate(quick, seed, rnd, n_exh, n_val, n_sim):
     """Witnesses of the two descriptive generation models (main family; family "validate": an apply with an unavailable
     verifier and background validation rounds) and random walks of the simulation model (everything combined)."""
+    fams = (("main", "Discovery.gen.quick.cfg" if quick else "Discovery.gen.cfg", n_exh, 6),
+            ("validate", "Discovery.gen.validate.quick.cfg" if quick else "Discovery.gen.validate.cfg", n_val, 2))
+    with ThreadPoolExecutor(max_workers=3) as ex:     # 6 + 2 TLC workers, the simulation is single threaded
+        fg = [ex.submit(vlib.tlc, "MCDiscovery", variant(cfg), workers=w, timeout=2400) for _, cfg, _, w in fams]
+        fs = ex.submit(vlib.tlc, "MCDiscovery", variant("Discovery.sim.cfg"), workers=1, simulate="num=%d" % n_sim, depth=45,
+                       seed=seed, timeout=1200)
+        runs, s = [f.result() for f in fg], fs.result()
     gens, chosen, n_wit, nb = [], [], 0, 0
-    for fam, cfg, n in (("main", "Discovery.gen.quick.cfg" if quick else "Discovery.gen.cfg", n_exh),
-                        ("validate", "Discovery.gen.validate.quick.cfg" if quick else "Discovery.gen.validate.cfg", n_val)):
-        g = vlib.tlc("MCDiscovery", variant(cfg), workers=8, timeout=2400)
+    for (fam, cfg, n, _), g in zip(fams, runs):
         if not g.ok:
             raise Inconclusive("generation run %s failed: %s %s" % (cfg, g.violation, g.error))
         wit = g.printed
         if fam == "validate":   # the main family already covers behaviours without an outage
-            wit = [b for b in wit if any(s.get("out") for s in b)]
+            wit = [b for b in wit if any(st.get("out") for st in b)]
         wit.sort(key=lambda b: json.dumps(b, sort_keys=True))
         c, k = pick(wit, n, rnd)
         chosen += [(fam, b) for b in c]
         n_wit += len(wit)
         nb += k
         gens.append((cfg, g))
-    s = vlib.tlc("MCDiscovery", variant("Discovery.sim.cfg"), workers=1, simulate="num=%d" % n_sim, depth=45, seed=seed, timeout=1200)
     if s.error:
         raise Inconclusive("simulation failed: " + str(s.error))
     sim = vlib.dedupe_maximal(s.printed)
@@ -325,7 +329,8 @@ def run(prop, tier, seed, replay=None):
         if name == "live":
             m["property"] = "Converges (<>[]Synced) under FairSpec"
         models.append(m)
-        cover.update(r.coverage)
+        for a, n in r.coverage.items():      # an action has to fire in at least one of the exhaustive runs
+            cover[a] = max(cover.get(a, 0), n)
         # vlib's pattern misses actions that are called with arguments ("<Submit line .. (195 13 195 52)>: n:m")
         for mm in re.finditer(r"^<(\w+) line [^>]*>: (\d+):(\d+)", r.raw, re.M):
             cover[mm.group(1)] = max(cover.get(mm.group(1), 0), int(mm.group(3)))
